@@ -202,6 +202,19 @@ class Session:
         new = self.new_model(o["kind"], o["g"], **fresh_cfg)
         self.call("load", self.objs[new]["m"].load, path)
         self.observe(new, epoch, "full", nm=tag)
+        self.last_save = (tag, path)
+        return new
+
+    def load_again(self, oid, epoch, fresh_cfg, spelling=False):
+        """The file written by the last save_load is loaded once more into another freshly constructed model (optionally through
+        another spelling of the same path): its full state is the state that was saved, whatever happened to earlier copies."""
+        o = self.objs[oid]
+        tag, path = self.last_save
+        if spelling:
+            path = os.path.join(os.path.dirname(path), ".", os.path.basename(path))
+        new = self.new_model(o["kind"], o["g"], **fresh_cfg)
+        self.call("load", self.objs[new]["m"].load, path)
+        self.observe(new, epoch, "full", nm=tag)
         return new
 
     def trace(self):
